@@ -56,6 +56,11 @@ def configs(tier):
     for shape in ('leaf', 'stump'):
         cfgs.append(dict(group='imputer_history', shape=shape, vary='a', _cost=600))
         cfgs.append(dict(group='imputer_history', shape=shape, vary='c', _cost=600))
+    # legal but unusual values of one feature in one update: IEEE specials, NumPy scalars, zero / False (falsy)
+    for val in ('nan', 'npnan', 'inf', 'zero', 'false', 'npint'):
+        for feat in FEATURES:
+            cfgs.append(dict(group='storage', shape='stump', vary=feat, T=2, special=(val, feat, 1), _cost=300))
+        cfgs.append(dict(group='storage', shape='leaf', vary='a', T=2, special=(val, 'a', 0), _cost=300))
     # three updates: both leaves of a branch hold a reservoir before learn_one prunes it (several reservoirs outdated at once)
     cfgs.append(dict(group='storage', shape='stump', vary='a', T=3, _cost=5000))
     return cfgs
@@ -152,6 +157,8 @@ class ABranch:
 
     def branch_no(self, x):
         v = x[self.feature]
+        if isinstance(v, float) and (v != v or v in (float('inf'), float('-inf'))):
+            return 0 if v == float('-inf') else 1        # IEEE: NaN <= t is false, +inf <= t is false
         key = v.t.get_id() if isinstance(v, Sym) else ('c', repr(v), getattr(v, '_tag', None))
         memo = self.__dict__.setdefault('_memo', {})
         if key not in memo:
@@ -283,9 +290,16 @@ def _make_storage(env, cfg, restructure=True):
     return ts, trees
 
 
-def _row(env, t):
+_SPECIAL = {'nan': lambda: float('nan'), 'npnan': lambda: __import__('numpy').float64('nan'), 'inf': lambda: float('inf'),
+            'zero': lambda: 0.0, 'false': lambda: False, 'npint': lambda: __import__('numpy').int64(3)}
+
+
+def _row(env, t, special=None):
     # the categorical feature is routed on as a number by the abstract branch (river encodes nominal splits likewise)
-    return {'c': env.real(f"x{t}_c"), 'a': env.real(f"x{t}_a")}
+    row = {'c': env.real(f"x{t}_c"), 'a': env.real(f"x{t}_a")}
+    if special is not None and special[2] == t:
+        row[special[1]] = _SPECIAL[special[0]]()     # a concrete, legal value of an unusual kind
+    return row
 
 
 def _check_storage(env, ts, trees, seen, newest, tag):
@@ -313,13 +327,17 @@ def _storage(env, cfg, ctx):
     env.claim('fresh_length_zero', len(ts) == 0 and all(len(ts.data_reservoirs[f]) == 0 for f in FEATURES))
     seen = []
     for t in range(cfg['T']):
-        x = _row(env, t)
+        x = _row(env, t, cfg.get('special'))
         x_copy = dict(x)
         guarded(env, 'update', ts.update, x)
         seen.append(x)
         env.claim('instance_unmodified', list(x.keys()) == list(x_copy.keys()) and all(same_term(x[k], x_copy[k]) for k in x))
         _check_storage(env, ts, trees, seen, x, f"_t{t + 1}")
         for f in FEATURES:
+            if len(trees[f].learned) != t + 1:
+                env.claim('every_feature_tree_learns_from_every_update', False,
+                          detail=f"tree of feature {f} has learned {len(trees[f].learned)} of {t + 1} updates")
+                continue
             lx, ly = trees[f].learned[-1]
             env.claim('tree_learns_feature_from_the_others', f not in lx and same_term(ly, x[f]) and
                       all(same_term(lx[g], x[g]) for g in FEATURES if g != f))
